@@ -24,7 +24,7 @@ UNITS = [
          ensures=[("def", "r == val_eq(denote(lhs_state.data), denote(rhs_state.data))")],
          # the (Ref, Value) arm calls eq_json with swapped operands: equality is symmetric
          body_prefix="let ghost l0 = lhs_state; let ghost r0 = rhs_state; proof { match (l0.data, r0.data) { (Data::Ref(p), Data::Value(v)) => { axiom_json_eq_symmetric(v, *p.inner); } _ => {} } }",
-         text_rewrites=[("E10", "(Data::Refs(lhs), Data::Refs(rhs)) => lhs == rhs,", "(Data::Refs(lhs), Data::Refs(rhs)) => vf_ptr_vecs_eq(&lhs, &rhs),", 1)]),
+         text_rewrites=[("E10", "(Data::Refs(@1), Data::Refs(@2)) => @1 == @2,", "(Data::Refs(@1), Data::Refs(@2)) => vf_ptr_vecs_eq(&@1, &@2),", 1)]),
     Unit(name="cmp_numbers", file=F, fn="cmp_numbers", order=40, status="assumed", serves=["C04", "C15"],
          why_assumed="f64 arithmetic and casts: Verus has no float reasoning; the numeric kernel is decided by the Kani harnesses "
                      "(loop-free, all i64 x all finite f64) through eq / lt",
@@ -32,7 +32,7 @@ UNITS = [
     Unit(name="lt", file=F, fn="lt", order=40, serves=["C04", "C15"],
          requires=[("singular", NOT_REFS)],
          ensures=[("def", "r == val_lt(denote(lhs.data), denote(rhs.data))")],
-         text_rewrites=[("E10", "lhs < rhs", "vf_str_lt(lhs, rhs)", 1)],
+         text_rewrites=[("E10", "@1 < @2", "vf_str_lt(@1, @2)", 1)],
          closures={1: Cl(expect="cmp_numbers(lhs, rhs)", ret="(b: bool)",
                          ensures=[("def", "b == json_lt(*lhs, *rhs)")])}),
     Unit(name="eq_json", file=F, fn="eq_json", order=40, serves=["C04", "C15"], ret_name="res",
@@ -41,8 +41,8 @@ UNITS = [
          body_prefix="proof { axiom_json_eq_def(*lhs, *rhs); }",
          # E10: `==` on references forwards to the referents (std's `impl PartialEq<&B> for &A`); the last-resort `lhs == rhs`
          # is the data type's own PartialEq (abstract: scalar_eq)
-         text_rewrites=[("E10", "k == k2", "**k == **k2", 1),
-                        ("E10", "(None, None) => lhs == rhs,", "(None, None) => vf_scalar_eq(lhs, rhs),", 1)],
+         text_rewrites=[("E10", "@1 == @2 &&", "**@1 == **@2 &&", 1),
+                        ("E10", "(None, None) => @1 == @2,", "(None, None) => vf_scalar_eq(@1, @2),", 1)],
          # rule E8: the helper results are bound so that "this is the quantified RFC statement" can be asserted
          shapes=[("Rz", 1, "{ let __z = vf_zip_all($X, $Y, $P); proof { if $X@.len() == $Y@.len() { "
                            "assert(__z == (forall|i: int| 0 <= i < $X@.len() ==> json_eq(#[trigger] $X@[i], $Y@[i]))); } } __z }"),
